@@ -1,6 +1,6 @@
 SPECIFICATION Spec
 CONSTANTS
   Versions <- MCVersions
-  Checkpoint <- MCCheckpoint
+  Checkpoints <- MCCheckpoints
   Stored <- ReleaseTripleOnly
 INVARIANTS OwnDatabaseOpens
